@@ -98,6 +98,11 @@ def gen_more(out):
                 out.append(f"tostr {cap} int {v}")
             if -2**63 <= v < 2**63:
                 out.append(f"tostr {cap} long {v}")
+    for e in (0, 1):
+        out += [f"opt {e} arrow", f"opt {e} carrow", f"opt {e} refarrow", f"exparrow {e} arrow", f"exparrow {e} carrow"]
+    for n in (0, 3):
+        for o in ("front", "cfront", "back", "cback", "idx", "cidx"):
+            out.append(f"arrfb {n} {o}")
     for ln in range(0, 7):
         for chars in itertools.product((123, 125, 97), repeat=ln):
             out.append("fmt " + " ".join(str(c) for c in (ln,) + chars))
